@@ -267,5 +267,6 @@ func sections() []h.Section {
 		{Name: "key-ids-imported-manager", Body: keyIDImportedSection, Bound: -1},
 		{Name: "key-generation", Body: keygenSection, Bound: -1},
 		{Name: "signatures", Body: signSection, Bound: -1},
+		{Name: "entropy-source-short-reads", Body: shortReadsSection, Bound: -1, Serial: true},
 	}
 }
